@@ -29,10 +29,54 @@ def _timer_out(c):
     c.ensures('output_is_on', c.rv == Val.B(py_eq(c.pre('_state', c.z('self')), S_('on'))))
 
 
+tp_of = Function('time_period_value', Val, Val)        # utils.time_period(x) (contract: C19): None, or seconds >= 0
+
+
+def timer_time_period(ex, e, st):
+    outs = []
+    for s1, vals in ex.evs(e.args, st):
+        x = to_val(vals[0], s1); r = tp_of(x)
+        ok = s1.copy(); ok.assume(Or(r == Val.VNone, And(Val.is_R(r), Val.r(r) >= 0))); outs.append((ok, ZV('val', r)))
+        bad = s1.copy(); bad.label('time_period:raises')
+        outs.append((bad, Raise(PExc('ValueError', val=Val.Obj(fresh('exc', IntSort())), where='callee'))))
+    return outs
+
+
+def timer_super_init(ex, e, st):
+    """super().__init__(*args, **kwargs): FSM construction with the (possibly rewritten) keyword arguments; it may reject them"""
+    st = st.copy()
+    kw = st.env['kwargs']
+    ex.emit(st, rec('super.__init__', to_val(st.env['self'], st), kw=kw.arr))
+    bad = st.copy(); bad.label('super.__init__:raises')
+    return [(st, P_NONE), (bad, Raise(PExc('OtherException', val=Val.Obj(fresh('exc', IntSort())), where='callee')))]
+
+
+@contract('Timer.__init__', qual=Qt + '__init__', modifies=('_restartable',), self_cls='Timer')
+def _timer_init(c):
+    me = c.z('self')
+    kw = c.arg('kwargs').arr
+    P, ON, OFF = StringVal('t_period'), StringVal('t_on'), StringVal('t_off')
+    has = lambda k: Opt.is_Some(kw[k])
+    period = tp_of(Opt.v(kw[P]))
+    c.raises('TypeError', when=And(has(P), Or(has(ON), has(OFF), period == Val.VNone)), label='t_period_excludes_t_on_t_off__and_needs_a_value')
+    c.raises('ValueError', when=has(P), label='bad_period')
+    c.raises('OtherException', unchanged=False, label='inherited_constructor_rejects_the_arguments')
+    c.ensures('restartable_flag', c.post('_restartable', me) == truthy(c.v('restartable')))
+    c.ensures('t_period_not_combined', Not(And(has(P), Or(has(ON), has(OFF)))))
+    if c.verifying:
+        half = Val.R(Val.r(period) / 2)
+        want = If(has(P), Store(Store(Store(kw, P, Opt.Absent), ON, Opt.Some(half)), OFF, Opt.Some(half)), kw)
+        c.expect_trace(lambda k: rec('super.__init__', Val.Obj(me), kw=want), 1)
+
+
+from pyvc.engine import Raise
+
+
 def build(run):
     fsm.verify_fsm(run, what=('c03', 'c04'))
     for k in ('Timer.cond_start', 'Timer.cond_stop', 'Timer.calc_output'):
         run.verify(k, cls='Timer')
+    run.verify('Timer.__init__', cls='Timer', calls={'utils.time_period': timer_time_period, 'super().__init__': timer_super_init})
     # ---- lemmas over the contracts --------------------------------------------------------------------------------------
     n = Int('n_live')
     run.lemma('at_most_one_pending_timer', [Or(n == 0, n == 1)], n <= 1)
@@ -46,5 +90,5 @@ def build(run):
     run.scan('set_timer_callers', callers == ['edzed/fsm.py:FSM._restore_state', 'edzed/fsm.py:FSM._start_timer'], f'{callers}')
     run.trust("asyncio loop.call_later / TimerHandle: the callback runs once, not before `when`, never after cancel(); "
               "'exactly once, on time' is this contract plus the timer invariant (no independent timing claim)")
-    run.unclaim("Timer's t_period keyword handling (Timer.__init__) and InputExp durations (FSM.__init__ keyword parsing)")
+    run.unclaim("FSM.__init__ keyword parsing (t_STATE durations of an instance, InputExp durations): prefix matching over keyword names")
     run.assume('A-C08: no event reaches an FSM after its stop()')
